@@ -51,6 +51,13 @@ CHECKS = {
  "C15": dict(cat="exploration", ref="5.15", technique="property-based testing: round-trip + equality oracle over proptest-generated and exhaustively enumerated values",
    text="round trip (value -> word -> value) and pairwise equality against a structural oracle over generated values; the int lattice, the descriptor boundary grid and the 200x200 equality matrix are enumerated completely",
    note="trusted: the harness's value specification type and its equality; arrays compared only with non-arrays (U11)"),
+
+ "C16": dict(cat="exploration", ref="5.16", technique="self-differential testing across contexts: fresh process vs. repeated / reordered in one process vs. 16 concurrent threads vs. another build profile",
+   text="every program of a generated batch is observed in a fresh process (reference), three times in seeded random orders in one process, >=20 times from 16 threads, and in a fresh process of the release-like build; all observations of a program must be identical",
+   note="schedules are exercised by stress only: the harness picks which program a thread runs next, not instruction interleavings (the crate has no synchronisation to interleave on); a regression introducing process-wide state is what this detects"),
+ "C17": dict(cat="fault_enumeration", ref="5.17", technique="model-based stateful testing of sessions against the implementation's own single-program semantics; exhaustive enumeration of short sessions; fault injection at every instruction boundary of multi-statement lines",
+   text="all sessions of <=3 lines over a 16-line alphabet and generated sessions of up to 13 lines (incl. parse / compile / run-time failing lines and lines cut after k instructions) on one retained compiler+VM; every line must behave like the last line of one program made of the effective earlier lines; a cut sweep enumerates every k for three lines and checks that the completed prefix is a prefix and grows monotonically",
+   note="oracle is nederlang::eval of the concatenation (the property's own definition); U1 for lines ending in declarations; results of lines are not released (as the prompt)"),
 }
 hooks_commits = subprocess.run(["git","-C","/repo","log","--format=%h %s"],capture_output=True,text=True).stdout.splitlines()
 hook_ids = [l.split()[0] for l in hooks_commits if "verif hook" in l]
